@@ -56,4 +56,31 @@ def tokMatch : List GTok → Bytes → Bool
 termination_by ts k => (ts.length + k.length, ts.length)
 decreasing_by all_goals simp_wf <;> omega
 
+
+/-- `utf8.Valid` (what Go's `regexp/syntax` requires of a pattern: `regexp.Compile` fails on invalid UTF-8, and with
+it `glob.Compile`) -/
+def validUtf8 : Bytes → Bool
+  | [] => true
+  | b0 :: rest =>
+    if b0 < 0x80 then validUtf8 rest
+    else if 0xC2 ≤ b0 ∧ b0 ≤ 0xDF then
+      match rest with
+      | b1 :: r => (0x80 ≤ b1 ∧ b1 ≤ 0xBF) && validUtf8 r
+      | _ => false
+    else if 0xE0 ≤ b0 ∧ b0 ≤ 0xEF then
+      match rest with
+      | b1 :: b2 :: r =>
+        let lo : UInt8 := if b0 = 0xE0 then 0xA0 else 0x80
+        let hi : UInt8 := if b0 = 0xED then 0x9F else 0xBF
+        (lo ≤ b1 ∧ b1 ≤ hi) && (0x80 ≤ b2 ∧ b2 ≤ 0xBF) && validUtf8 r
+      | _ => false
+    else if 0xF0 ≤ b0 ∧ b0 ≤ 0xF4 then
+      match rest with
+      | b1 :: b2 :: b3 :: r =>
+        let lo : UInt8 := if b0 = 0xF0 then 0x90 else 0x80
+        let hi : UInt8 := if b0 = 0xF4 then 0x8F else 0xBF
+        (lo ≤ b1 ∧ b1 ≤ hi) && (0x80 ≤ b2 ∧ b2 ≤ 0xBF) && (0x80 ≤ b3 ∧ b3 ≤ 0xBF) && validUtf8 r
+      | _ => false
+    else false
+
 end GoRedis
